@@ -224,7 +224,27 @@ CLAIMED.update({
         note="Trusted: Rib.tla's decision process (validated against the real table by C02/C06) and the fold of the request stream."),
 })
 
-NOT_YET = {}
+CLAIMED.update({
+    "C17": dict(
+        category="exploration", design_ref="DESIGN.md 5 (C17)",
+        technique="TLA+ function-style spec ApiValue.tla (API input cases, MustAccept, the wire invariants WellFormed over the projection "
+                  "of an Attribute / Nlri, and the verdict Reason) whose cases TLC enumerates; every case is converted by the real "
+                  "attr_from_api / net_from_api and the recorded conversions are validated by TLC against ApiValueTrace.tla; TLA+ "
+                  "state machine ApiStore.tla (AddPath / DeletePath / ListPath next to peer-learned paths; invariants checked "
+                  "exhaustively by TLC) with every transition replayed on the real GrpcService and TableManager; sample / "
+                  "wire-decoded values round-tripped through the API form",
+        text="1,626 API input cases (attribute kinds x field classes incl. out-of-range enums, over-long lists, malformed addresses, "
+             "Unknown{type = known code}; NLRI kinds x families x field classes) are converted by the real code and each record "
+             "(outcome, projected value, round trip, trip over the wire, use in selection / policy / encoding under catch_unwind) is "
+             "accepted or rejected by the specification; 14.8k values (samples of every attribute kind and of the 19 families' NLRI, "
+             "wire-decoded copies, 256 x 19 x 3 extended communities) go to the API form and back; all 6,120 transitions of the "
+             "store model are replayed on the real gRPC handlers comparing the RPC result, the table and ListPath after every call.",
+        note="Trusted: the transcription of the wire decoder's guarantees into WellFormed; concrete values are one representative per "
+             "field class; TunnelEncap / PrefixSid / LS contents only through the sample round trip. The next hop is not part of "
+             "what ListPath shows (it is held outside the attribute list); its stored value is compared instead."),
+})
+
+NOT_YET = {"C19": "check not built yet in this session (see DESIGN.md 6 build order)"}
 
 HOOK_COMMITS = []
 
@@ -251,7 +271,7 @@ def main():
         else:
             na.append({"property_id": pid, "reason": NOT_YET.get(pid, "check not built yet in this session (see DESIGN.md 6 build order)")})
     hooks = subprocess.run(["git", "-C", "/repo", "log", "--format=%H %s"], capture_output=True, text=True).stdout
-    commits = [l.split()[0] for l in hooks.splitlines() if " verif hook" in l]
+    commits = [l.split()[0] for l in hooks.splitlines() if "verif hook" in l]
     m = {
         "version": 1,
         "setup_cmd": "bin/setup",
